@@ -268,7 +268,10 @@ theorem asm_callback_spec (a : ASM) (op : AsmOp) (g : GenStep) : AsmCbSpec a op 
 /-! ## the read-ahead drain loop of inReadEvent -/
 
 theorem inReadDrain_nil (a : ASM) (g : GenStep) : a.inReadDrain g [] = a.inReadEvent g := by
-  simp [ASM.inReadDrain, ASM.inReadEvent, ASM.drainLoop]
+  simp [ASM.inReadDrain, ASM.inReadEvent, ASM.doReadOpD, ASM.drainLoop]
+
+theorem inWriteDrain_nil (a : ASM) (g : GenStep) : a.inWriteDrain g [] = a.inWriteEvent g := by
+  simp [ASM.inWriteDrain, ASM.inWriteEvent, ASM.doReadOpD, ASM.drainLoop]
 
 /-- what the loop maintains: a successful state holds at most one operation -/
 def DrainOk (r : ASM × AsmRes) : Prop := ∀ evs, r.2 = .ok evs → r.1.activeOps ≤ 1
@@ -309,39 +312,64 @@ theorem drainLoop_ok : ∀ (pend : List GenStep) (r : ASM × AsmRes), DrainOk r 
     | assertionError => simp only; exact h
     | raised => simp only; exact h
 
-theorem asm_drain_spec (a : ASM) (g : GenStep) (pend : List GenStep) :
-    ((a.inReadDrain g pend).2 = .assertionError ∨ (a.inReadDrain g pend).2 = .raised →
-        (a.inReadDrain g pend).1 = ASM.clear) ∧
-    (∀ evs, (a.inReadDrain g pend).2 = .ok evs → (a.inReadDrain g pend).1.activeOps ≤ 1) := by
-  have key : ∀ r : ASM × AsmRes, DrainOk r →
-      ((ASM.guard r).2 = .assertionError ∨ (ASM.guard r).2 = .raised → (ASM.guard r).1 = ASM.clear) ∧
-      (∀ evs, (ASM.guard r).2 = .ok evs → (ASM.guard r).1.activeOps ≤ 1) := by
-    intro r h
-    unfold ASM.guard
-    cases hr : r.2 with
-    | ok evs => simp only; exact ⟨by simp [hr], fun e he => h e he⟩
-    | assertionError => simp
-    | raised => simp
-  unfold ASM.inReadDrain
-  apply key
+theorem guard_drainOk (r : ASM × AsmRes) (h : DrainOk r) :
+    ((ASM.guard r).2 = .assertionError ∨ (ASM.guard r).2 = .raised → (ASM.guard r).1 = ASM.clear) ∧
+    (∀ evs, (ASM.guard r).2 = .ok evs → (ASM.guard r).1.activeOps ≤ 1) := by
+  unfold ASM.guard
+  cases hr : r.2 with
+  | ok evs => simp only; exact ⟨by simp [hr], fun e he => h e he⟩
+  | assertionError => simp
+  | raised => simp
+
+theorem drain_body_ok (a : ASM) (g : GenStep) (pend : List GenStep) (last : ASM × AsmRes)
+    (hlast : a.activeOps = 0 → DrainOk last) :
+    DrainOk (if !a.checkAssert then (a, .assertionError)
+      else if a.handshaker then a.doHandshakeOp g
+      else if a.closer then a.doCloseOp g
+      else if a.reader then a.doReadOpD g pend
+      else if a.writer then a.doWriteOp g
+      else last) := by
   obtain ⟨h, c, r, w, res⟩ := a
   by_cases hc : (ASM.checkAssert ⟨h, c, r, w, res⟩) = true
   · simp only [hc, Bool.not_true, Bool.false_eq_true, if_false]
     have hact : (ASM.activeOps ⟨h, c, r, w, res⟩) ≤ 1 := by
       simp [ASM.checkAssert] at hc
       omega
-    cases h <;> cases c <;> cases r <;> cases w <;> simp [ASM.activeOps] at hact <;> simp only [if_true, Bool.false_eq_true, if_false]
-    · apply drainLoop_ok
-      exact doReadOp_fresh_ok ⟨false, false, false, false, res⟩ (by simp [ASM.noOp]) g
+    cases h <;> cases c <;> cases r <;> cases w <;> simp [ASM.activeOps] at hact <;>
+      simp only [if_true, Bool.false_eq_true, if_false]
+    · exact hlast (by simp [ASM.activeOps])
     · intro evs; cases g <;> simp [ASM.doWriteOp, ASM.activeOps]
-    · intro evs; cases g with
-      | yld v => simp only [ASM.doReadOp]; split <;> simp [ASM.activeOps]
-      | stop => simp [ASM.doReadOp]
-      | raise => simp [ASM.doReadOp]
+    · unfold ASM.doReadOpD
+      apply drainLoop_ok
+      exact doReadOp_fresh_ok ⟨false, false, false, false, res⟩ (by simp [ASM.noOp]) g
     · intro evs; cases g <;> simp [ASM.doCloseOp, ASM.activeOps]
     · intro evs; cases g <;> simp [ASM.doHandshakeOp, ASM.activeOps]
   · simp only [hc, Bool.not_false, if_true]
     intro evs he; simp at he
+
+theorem asm_drain_spec (a : ASM) (g : GenStep) (pend : List GenStep) :
+    ((a.inReadDrain g pend).2 = .assertionError ∨ (a.inReadDrain g pend).2 = .raised →
+        (a.inReadDrain g pend).1 = ASM.clear) ∧
+    (∀ evs, (a.inReadDrain g pend).2 = .ok evs → (a.inReadDrain g pend).1.activeOps ≤ 1) := by
+  unfold ASM.inReadDrain
+  apply guard_drainOk
+  apply drain_body_ok
+  intro h0
+  unfold ASM.doReadOpD
+  apply drainLoop_ok
+  obtain ⟨h, c, r, w, res⟩ := a
+  cases h <;> cases c <;> cases r <;> cases w <;> simp [ASM.activeOps] at h0
+  exact doReadOp_fresh_ok ⟨false, false, false, false, res⟩ (by simp [ASM.noOp]) g
+
+theorem asm_wdrain_spec (a : ASM) (g : GenStep) (pend : List GenStep) :
+    ((a.inWriteDrain g pend).2 = .assertionError ∨ (a.inWriteDrain g pend).2 = .raised →
+        (a.inWriteDrain g pend).1 = ASM.clear) ∧
+    (∀ evs, (a.inWriteDrain g pend).2 = .ok evs → (a.inWriteDrain g pend).1.activeOps ≤ 1) := by
+  unfold ASM.inWriteDrain
+  apply guard_drainOk
+  apply drain_body_ok
+  intro h0 evs _
+  simp only; omega
 
 /-- every complete record found in the read-ahead buffer is handed to outReadEvent before
     inReadEvent returns: an idle machine whose first read and all `n` extra reads complete
